@@ -63,6 +63,17 @@ def solver_forms(kw):
         yield with_("levels-int32-array", levels=np.array(lv, dtype=np.int32))
     yield with_("profiles-list", profiles=list(full["profiles"]))
     yield with_("profiles-stacked-rows", profiles=tuple(np.stack(full["profiles"])))  # rows of one 2-D table (contiguous views)
+    # identity vs equality of the profile components: components that are EQUAL passed as ONE object (a caller writing
+    # K = kappa*ustar*z; profiles = (u, v, K, K, Kz)), and every component as an object of its own
+    pr = [np.asarray(a) for a in full["profiles"]]
+    yield with_("profiles-fresh-copies", profiles=tuple(np.array(a, copy=True) for a in pr))
+    shared = list(pr)
+    for i in range(len(shared)):
+        for j in range(i + 1, len(shared)):
+            if np.array_equal(pr[i], pr[j]):
+                shared[j] = shared[i]
+    if any(shared[j] is shared[i] for i in range(5) for j in range(i + 1, 5)):
+        yield with_("profiles-equal-components-one-object", profiles=tuple(shared))
     for flag in ("footprint", "analytic"):
         yield with_("%s-numpy-bool" % flag, **{flag: np.bool_(full[flag])})
         yield with_("%s-int" % flag, **{flag: int(full[flag])})
@@ -109,6 +120,12 @@ def requests():
         "analytic-footprint": dict(base, z=zc, profiles=profc, analytic=True, footprint=True, meas_pt=(20.0, 15.0), halo=None),
         "single-default-precision": dict({k: v for k, v in base.items() if k != "precision"}, levels=4, srf_bg_conc=5.0),
         "top-level-in-list": dict(base, levels=[len(z) - 1, 0], srf_bg_conc=-4.0, halo=20.0),
+        # value coincidences among the profile components (separate objects here; the forms pass them as one object too)
+        "pair-kx-ky": dict(base, profiles=(prof[0], prof[0].copy(), 3.0 * prof[4], 3.0 * prof[4], prof[4]), srf_bg_conc=1.0),
+        "pair-ky-kz": dict(base, profiles=(prof[0], prof[1], 3.0 * prof[4], prof[4].copy(), prof[4]), footprint=True, meas_pt=(30.0, 45.0)),
+        "pair-kx-kz": dict(base, profiles=(prof[0], prof[1], prof[4].copy(), 0.25 * prof[4], prof[4]), meas_pt=(30.0, 45.0)),
+        "pair-kx-ky-analytic": dict(base, z=zc, profiles=(profc[0], profc[0].copy(), 2.5 * profc[4], 2.5 * profc[4], profc[4]), analytic=True, srf_bg_conc=1.0),
+        "pair-kx-ky-analytic-footprint": dict(base, z=zc, profiles=(profc[0], profc[1], 2.5 * profc[4], 2.5 * profc[4], profc[4]), analytic=True, footprint=True, meas_pt=(20.0, 15.0)),
     }
     return R
 
